@@ -131,7 +131,14 @@ def gen_request(rng, g, op=None, plain=False):
     req = {"op": op or ("unsetup" if rng.random() < 0.12 else "setup"), "name": name, "ver": ver,
            "keep": (not plain) and rng.random() < 0.28,
            "max_depth": -1 if plain else rng.choice([-1, -1, -1, 0, 1, 2]),
-           "tags": ["beta"] if (not plain and rng.random() < 0.1) else []}
+           "tags": ["beta"] if (not plain and rng.random() < 0.12) else []}
+    beta = g["tags"].get("beta", {})
+    if req["tags"] and beta and rng.random() < 0.6:
+        # the version acceptance loop: a tag placed before `version` in the VRO answers with one version,
+        # the command line names another one
+        req["name"] = rng.choice(sorted(beta))
+        vs = [d["ver"] for d in g["decls"] if d["name"] == req["name"]]
+        req["ver"] = {"v": rng.choice(vs)}
     if req["op"] == "unsetup":
         req["ver"] = None
         req["tags"] = []
@@ -397,7 +404,7 @@ def _do_request(S, ud, env, req):
         out["vro"] = list(E.getPreferredTags())
         try:
             cmds = app.setup(req["name"], vname, prefTags=tags, eupsenv=E, fwd=(req["op"] == "setup"))
-            out["outcome"] = "notfound" if cmds == ["false"] else "ok"
+            out["outcome"] = "notfound" if "false" in cmds else "ok"
             out["cmds"] = cmds
         except Exception as e:  # noqa
             out["outcome"] = "raised"
@@ -431,7 +438,7 @@ def apply_cmds(env, cmds):
             k = c.split("()", 1)[0]
             defs[k] = c
         else:
-            raise common.InfraError("unrecognised command %r" % c)
+            undefs.append("?" + c)           # not a command the emitter is known to produce
     return env, defs, undefs
 
 
@@ -755,6 +762,8 @@ def check_request(G_, req, r, stats=None):
         yield ("C02", "failed_request_emits_nothing", None, "raised but cmds=%r" % (r["cmds"],))
     if r["outcome"] != "ok":
         return
+    if any(x.startswith("?") for x in r["shell_undefs"]):
+        yield ("C02", "commands_realise_environment", None, "unknown commands %r" % (r["shell_undefs"],))
     e1 = canon_env(G_, r["after"])
     es = canon_env(G_, r["shell"])
     if es != e1:
